@@ -1,6 +1,6 @@
 (* Parsing of spec / value terms of the case language and printing of observable values. *)
 From Coq Require Import Strings.String.
-From Iso Require Import Model.Base Model.Sexp Model.Padding Model.Encoding Model.Prefix Model.Bitmap Model.Spec Model.Field Model.Message.
+From Iso Require Import Model.Base Model.Sexp Model.Padding Model.Encoding Model.Prefix Model.Bitmap Model.Spec Model.Field Model.Message Model.Json Model.MessageOps.
 
 Definition T (s : string) : bytes := list_byte_of_string s.
 
@@ -249,4 +249,29 @@ Definition show_ures {A} (show : A -> bytes) (r : ures A) : bytes :=
   | UErr p _ => T "err " ++ show_path p
   | UPanic _ => T "panic"
   | UFuel => T "outoffuel"
+  end.
+
+(* ---- parsed JSON documents: (js x..) (jn z) (jo ((xkey jdoc)...)) ---- *)
+Fixpoint parse_jdoc (s : sexp) : option jdoc :=
+  match s with
+  | SList [Atom h; a] =>
+      if bytes_eqb h (T "js") then option_map JS (as_hex a)
+      else if bytes_eqb h (T "jn") then option_map JN (as_int a)
+      else if bytes_eqb h (T "jo") then
+        match a with
+        | SList l =>
+            option_map JO ((fix go (l : list sexp) : option (list (bytes * jdoc)) :=
+                              match l with
+                              | [] => Some []
+                              | SList [k; v] :: r =>
+                                  match as_hex k, parse_jdoc v, go r with
+                                  | Some k, Some v, Some r' => Some ((k, v) :: r')
+                                  | _, _, _ => None
+                                  end
+                              | _ => None
+                              end) l)
+        | _ => None
+        end
+      else None
+  | _ => None
   end.
